@@ -15,6 +15,7 @@ from .sym import simp
 FEAS_TIMEOUT_MS = int(os.environ.get("PYVC_FEAS_MS", "400"))
 ARITY2_TERMS = 36
 DEEP_COVER_PATHS = 60
+POOL2_TERMS = 48
 COVER_TIMEOUT_MS = int(os.environ.get("PYVC_COVER_MS", "10000"))
 VC_TIMEOUT_MS = int(os.environ.get("PYVC_VC_MS", "6000"))
 EXT_TIMEOUT_S = float(os.environ.get("PYVC_EXT_S", "30"))
@@ -189,6 +190,11 @@ class Path:
                 return
         self.pool.append(t)
 
+    def add_pool2(self, t):
+        p2 = self.__dict__.setdefault("pool2", [])
+        if len(p2) < POOL2_TERMS and not any(u.eq(t) for u in p2):
+            p2.append(t)
+
     def instantiated(self, extra_terms=(), goal=None):
         """Instances of the quantified hypotheses: round 1 over the pool (skolems, program
         integers, +-1, 0); round 2 over the array index terms that occur in the goal and in
@@ -281,7 +287,16 @@ class Path:
                     add(simp(fmap(t)))
                 except Exception:
                     pass
-        return run(terms)
+        out = run(terms)
+        # second generation: skolems born while the first-generation instances were built
+        p2 = [t for t in self.__dict__.get("pool2", []) if t.get_id() not in seen]
+        if p2:
+            self._in_pool2_round = True
+            try:
+                out += run(p2)
+            finally:
+                self._in_pool2_round = False
+        return out
 
     # ------------------------------------------------------------------ solving
     def _check(self, extra, timeout_ms, inst=True):
